@@ -12,6 +12,17 @@ pub fn seeds(seed: u64) -> Vec<([u8; 32], bool)> {
     for t in [&b"correct horse battery staple!!!!"[..], &b"0123456789abcdef0123456789abcdef"[..], &b"seed seed seed seed seed seed see"[..32]] {
         v.push((t.try_into().unwrap(), false));
     }
+    // seeds whose first / last bytes have the value of ASCII white space, NUL or a quote character
+    // (whatever a text-minded clean-up step might strip)
+    for (at, b) in [(31usize, 0x0au8), (31, 0x20), (0, 0x20), (31, 0x00), (0, 0x22), (31, 0x0d)] {
+        let mut s: [u8; 32] = core::array::from_fn(|i| (i as u8).wrapping_mul(37).wrapping_add(0x51));
+        s[at] = b;
+        if at == 31 && b == 0x0d {
+            s[30] = 0x0d;
+            s[31] = 0x0a;
+        }
+        v.push((s, false));
+    }
     for bit in 0..256 {
         let mut s = [0u8; 32];
         s[bit / 8] = 1 << (bit % 8);
@@ -27,9 +38,9 @@ pub fn seeds(seed: u64) -> Vec<([u8; 32], bool)> {
     v
 }
 
-/// A spread-out subset of n seeds, always including the first 9 (zero, ff, RFC vectors, text seeds).
+/// A spread-out subset of n seeds, always including the first 15 (zero, ff, RFC vectors, text seeds, seeds with white-space/NUL/quote bytes at an end).
 pub fn seeds_subset(seed: u64, n: usize) -> Vec<([u8; 32], bool)> {
-    const FIXED: usize = 9;
+    const FIXED: usize = 15;
     let all = seeds(seed);
     if n >= all.len() {
         return all;
